@@ -112,6 +112,8 @@ FMTFAM = (
        STRUCT(F("m", MAP(STR, BOOL), fmt="emitnull"), F("n", MAP(STR, BOOL), fmt="emitempty"), F("o", MAP(STR, BOOL))),
        STRUCT(F("s", SLICE(STR), fmt="emitnull", omitempty=True), F("m", MAP(STR, STR), fmt="emitempty", omitzero=True), F("p", PTR(SLICE(BOOL)), fmt="emitnull")),
        STRUCT(F("bad", SLICE(BOOL), fmt="array")), STRUCT(F("bad", MAP(STR, BOOL), fmt="base64")), STRUCT(F("bad", ARRAY(1, BOOL), fmt="emitnull")),
+       STRUCT(F("d", DUR, fmt="iso8601")), STRUCT(F("d", PTR(DUR), fmt="iso8601", omitzero=True), F("s", DUR, fmt="iso8601", string=True), F("n", DUR, fmt="nano")),
+       MAP(STR, STRUCT(F("d", DUR, fmt="iso8601", omitempty=True))),
        STRUCT(F("bad", ANY, fmt="emitnull"), F("ok", BOOL)), STRUCT(F("b", SLICE(BYTES), fmt="emitnull"), F("c", MAP(STR, BYTES), fmt="emitempty"))]
 )
 FMT_MOPTS = [O(det=True), O(det=True, nsn=True, nmn=True), O(det=True, sn=True), O(det=True, oz=True)]
@@ -167,6 +169,8 @@ def _dec(d):
 def _extra_values(t, f):
     if t["k"] == "float" and f:
         return 3
+    if t["k"] == "dur" and f == "iso8601":
+        return 3
     if t["k"] == "ptr":
         return _extra_values(t["e"], f)
     return 0
@@ -175,6 +179,8 @@ def _extra_values(t, f):
 def _extra_inputs(t, f):
     if t["k"] in ("bytes", "barr"):
         return {"base32": 17, "base32hex": 8, "base64": 7, "base64url": 7, "base16": 11, "hex": 11, "array": 8}.get(f, 0)
+    if t["k"] == "dur" and f == "iso8601":
+        return 38
     if t["k"] == "float" and f:
         return 6
     if t["k"] == "ptr":
